@@ -21,12 +21,15 @@ Nested(w)       == w = "[[T!]]"
 \*            "recursive" field of a self-referential input (input Rec { a: T next: Rec }) two links down;
 \*            "sub_var" / "sub_field": the same two for a SUBSCRIPTION method: the variables travel in the payload of the
 \*            graphql-transport-ws subscribe frame (_send_subscribe) instead of an HTTP body, through the same conversion;
+\*            "result_union": the scalar selected under the SAME key in two members of a union held by a nullable list of
+\*            nullable items ([U]: the Optional sits two levels down); the parse function runs once per occurrence, not once
+\*            per member that selects the key;
 \*            "result" / "result_nested" / "result_fragment": the same machine read in the other direction (C07, result
 \*            side): the server returns the value, `wire` is what reaches user code, serLog logs the user's PARSE function
 \* states of the call for this argument: "omitted", "none", "val", "val_nullitem" (a null item in the list), "empty" ([]),
 \*   "val_falsy" (a valid value that is falsy in Python: 0, a zero duration, an empty object),
 \*   "val_nullfirst" (the list STARTS with a null item)
-IsResult(p) == p \in {"result", "result_nested", "result_fragment"}
+IsResult(p) == p \in {"result", "result_nested", "result_fragment", "result_union"}
 ValidCase(w, s) ==
   /\ s \in {"omitted", "none"} => Nullable(w)
   /\ s \in {"val_nullitem", "val_nullfirst"} => IsList(w) /\ ItemNullable(w)
